@@ -221,7 +221,8 @@ where
         }
         nodes.extend(compact_nodes);
 
-        if nodes.len() >= <Ix as IndexType>::max().index() {
+        // an index type admits `max()` nodes (indices `0..max()`, `max()` is the end marker)
+        if nodes.len() > <Ix as IndexType>::max().index() {
             Err(invalid_length_err::<Ix, _>("node", nodes.len()))?
         }
 
